@@ -195,6 +195,18 @@ CLAIMED = {
         "lexical form changes, datatype does not; correspondence only). Seven defects repaired.",
    technique="Lean 4 proof (tokenizer + state-machine refinement to the statement-group semantics, by induction over lines and groups) + differential correspondence + bounded-exhaustive layout search",
    design="5/C07"),
+ "C08": dict(
+   text="Proof: the TSV reader and the N-Triples reader yield the same triple - the triple of the statement - for every statement and lexical form "
+        "(no raw tab); the multi-source reader yields the triples of its sources one after the other (any reader) and, for N-Triples files, "
+        "exactly the triples of all statements for every partition into files; every count and class size computed from the concatenation is "
+        "invariant under any other partition / order of the same statements (permutation invariance); with C06 and C07 the three hand-written "
+        "readers are proved against one term model. Tie: Tsv.parseLine vs TsvNtTriplesYielder line by line; pipeline on the reference channel. "
+        "Search: each graph delivered through 30 channels (7 formats as file and raw string, rdflib Graph, file:// URL, lists of 2-4 files with "
+        "an arbitrary partition, gz / xz, zip with flat and nested members, lists of zips) and compared with the raw N-Triples run.",
+   note="Trusts Lean's kernel, harness. rdflib's parsers, decompression and URL fetching are byte transport outside the model (partial): covered by "
+        "the search only. Finding F-C19-1 (rdflib relabels blank nodes per parse). Two defects repaired.",
+   technique="Lean 4 proof (reader agreement, concatenation, permutation invariance) + differential correspondence + cross-channel search",
+   design="5/C08"),
 }
 PENDING_REASON = "check not built yet (work in progress; see DESIGN.md section 9 for the build order)"
 
